@@ -224,13 +224,17 @@ def one_history(ctx, index, rng: random.Random):
                         if np.dtype(h.dtype).kind != "f":
                             rec.fail(monitor="C13.rules", op=op, symptom="normalize did not give a float histogram", diff=["dtype"], detail={"after": str(h.dtype)})
                 elif op == "merge":
+                    with attach.quiet():
+                        pre_f_, pre_e_ = np.asarray(h.frequencies, dtype=np.float64).copy(), np.asarray(h.errors2, dtype=np.float64).copy()
                     h = h.merge_bins(2)
                     world.register(h)
                     if np.dtype(h.dtype) != before_dtype:
                         # the sums of merged bins may not fit a compact content type: then, and only then, the type is widened losslessly
-                        from ..monitors.structure import merge_widening_justified
+                        # (all axes are merged one after the other: an intermediate stage may be what did not fit)
+                        from ..monitors.structure import merge_all_axes_widening_justified, merge_widening_justified
 
-                        if not merge_widening_justified(before_dtype, h.dtype, h.frequencies, h.errors2):
+                        if not (merge_widening_justified(before_dtype, h.dtype, h.frequencies, h.errors2)
+                                or merge_all_axes_widening_justified(before_dtype, h.dtype, pre_f_, pre_e_, 2)):
                             rec.fail(monitor="C13.rules", op=op, symptom="merge_bins changed the dtype", diff=["dtype"], detail={"before": str(before_dtype), "after": str(h.dtype)})
                     pairs = [np.asarray(b).tolist() for b in ([h.bins] if d == 1 else h.bins)]
                 elif op == "copy":
